@@ -104,15 +104,18 @@ Plan = List[Tuple[Ratio, Path, Exponent]]
 
 @functools.lru_cache(maxsize=None)
 def _plan_conversion(start: Unit, end: Unit) -> Plan:
+    # offsets along the way are expressed in unprefixed units, so the end unit's prefix
+    # can only be divided out as the very last step
     unprefixed = end.quantify()
-    plan: RoughPlan = [(1 / unprefixed.magnitude, One, One, 1)]
+    end_prefix: RoughPlan = [(1 / unprefixed.magnitude, One, One, 1)]
+    plan: RoughPlan = []
 
     start_factors = _splat(start)
     end_factors = _splat(end)
 
     direct_path = _find_path(start, end)
     if direct_path:
-        return _inline_paths(plan) + [(1, direct_path, 1)]
+        return [(1, direct_path, 1)] + _inline_paths(end_prefix)
 
     plan += [
         (ratio, end, start, exponent)
@@ -135,7 +138,7 @@ def _plan_conversion(start: Unit, end: Unit) -> Plan:
     if start_factors or end_factors:
         raise ConversionNotFound(f"No conversion from {start} to {end}")
 
-    return _inline_paths(plan)
+    return _inline_paths(plan + end_prefix)
 
 
 def _inline_paths(plan: List[Tuple[Ratio, Unit, Unit, Exponent]]) -> Plan:
